@@ -104,7 +104,15 @@ def check_class(prog, cd, rep, cname, amap, items, c):
                 check_seq(seq)
                 return
             for y in cfg.succ[x]:
-                if y in cfg.exc_succ[x] or y in onpath:
+                if y in cfg.exc_succ[x]:
+                    # an exception leaves the method here: the lists must be balanced at this point
+                    if y == cfg.rexit.id and x not in at:
+                        ops = [e for e in seq if e[0] != "raise-capable"]
+                        if len(ops) % 2 == 1:
+                            st = cfg.nodes[x].stmt
+                            problems.append((st, f"`{norm(head(st))[:60]}` can raise after `{norm(head(ops[-1][3]))}` and before its counterpart on the other list: the exception leaves the lists with different lengths"))
+                    continue
+                if y in onpath:
                     continue
                 ev = at.get(y, [])
                 raising = []
